@@ -143,7 +143,7 @@ def is_num(a):
 
 def boundary_int(rng):
     r = rng.random()
-    if r < 0.1:
+    if r < 0.16:
         return rng.choice([0, 1, -1, 2, -2, 3, 10, -10, 100, 255, 256])
     k = rng.choice(KS)
     base = 2 ** k
@@ -193,6 +193,8 @@ def render(rng, v, kind):
         except OverflowError:
             x = math.inf if v > 0 else -math.inf
         x = float_neighbours(rng, x)
+        if x == 0.0 and rng.random() < 0.5:
+            x = -x                      # both zeros
         return f"{kind}:{f64_bits(x):016x}"
     if kind == "f32":
         try:
@@ -204,12 +206,14 @@ def render(rng, v, kind):
             b2 = b + rng.choice([-1, 1])
             if 0 <= b2 < 2 ** 32 and not math.isnan(bits_f32(b2)):
                 x = bits_f32(b2)
+        if x == 0.0 and rng.random() < 0.5:
+            x = -x
         return f"f32:{f32_bits(x):08x}"
     if kind == "bf":
         d = v.denominator
         if d & (d - 1):
             v = Fraction(v.numerator // v.denominator)
-        return bf_atom(rng.choice([53, 53, 64, 100, 200]), v)
+        return bf_atom(rng.choice([53, 53, 64, 100, 200]), v, neg_zero=rng.random() < 0.5)
     raise ValueError(kind)
 
 
@@ -249,8 +253,11 @@ def gen_num_group(rng, n, kinds=None):
                 v = Fraction(base)
             elif r < 0.85:
                 v = Fraction(base + rng.choice([-2, -1, 1, 2]))
-            elif r < 0.93:
+            elif r < 0.90:
                 v = Fraction(base) + Fraction(rng.choice([1, -1, 3]), rng.choice([2, 4, 1024]))
+            elif r < 0.95:
+                # wrap-around aliases: values that coincide after a conversion to a narrower/other-signed integer
+                v = Fraction(base + rng.choice([1, -1]) * 2 ** rng.choice([8, 16, 32, 64, 64, 64]))
             else:
                 v = Fraction(boundary_int(rng))
             a = render(rng, v, kind)
@@ -715,7 +722,8 @@ def run(ctx):
     # hash recipe: Hash(v) must be xxhash64 of the model's byte stream
     atoms = sorted({o for l in lines for o in l.split("\t")[2:] if not o.startswith("x:") and not o.startswith("y:")})
     rng.shuffle(atoms)
-    atoms = atoms[:ctx.n(4000, 100000)]
+    special_atoms = [a for a in atoms if atom_value(a) in (Fraction(0), "nan", "+inf", "-inf") or not is_num(a)]
+    atoms = (special_atoms + [a for a in atoms if a not in set(special_atoms)])[:ctx.n(4000, 100000)]
     hb = vlib.run_model(["num\thashbytes\t" + a for a in atoms])
     for a, h in zip(atoms, hb):
         if h.startswith("ok ") and h != "ok identity":
